@@ -117,7 +117,8 @@ _end_of_line_regex = re.compile(r"(?:\r\n)|\r|\n")
 # former. The regex also doesn't insist that "useragent" is at the exact 
 # beginning of the line, which makes this code immune to confusion caused 
 # by byte order markers. 
-_directive_regex = re.compile("(allow|disallow|user[-]?agent|sitemap|crawl-delay):[ \t]*(.*)", re.IGNORECASE)
+# (White space is allowed in front of the colon as well: RFC 9309 section 2.2.)
+_directive_regex = re.compile("(allow|disallow|user[-]?agent|sitemap|crawl-delay)[ \t]*:[ \t]*(.*)", re.IGNORECASE)
 
 # This is the number of seconds in a week that I use to determine the default 
 # expiration date defined in MK1996.
